@@ -240,7 +240,7 @@ func (e *Eng) EarlyExits(l *Loop) []ssa.Instruction {
 type Row struct {
 	Name   string
 	Assume []LitM
-	Opt    []LitM // assumptions applied where the function tests them, without requiring that it does
+	Opt    []LitM     // assumptions applied where the function tests them, without requiring that it does
 	Ret    [][]string // per result index: allowed canonical renderings (nil = any)
 	Must   []func(ssa.Instruction) bool
 	Never  []func(ssa.Instruction) bool
